@@ -1141,6 +1141,22 @@ def try_branch_locals(fn):
     return out
 
 
+class EV(tuple):
+    """value of a tracked enum local whose payload is followed too: (variant index, payload value)"""
+    __slots__ = ()
+
+    def __new__(cls, vidx, payload):
+        return tuple.__new__(cls, (vidx, payload))
+
+    @property
+    def vidx(self):
+        return self[0]
+
+    @property
+    def payload(self):
+        return self[1]
+
+
 class Explore:
     """A4: traverse a body under an assumption about finite-domain values.
 
@@ -1195,8 +1211,59 @@ class Explore:
                         enum_auto.append(src)
         if len(enum_auto) > 16:
             enum_auto = []
-        self.tracked = tuple(tracked) + tuple(auto) + tuple(enum_auto)
+        # and tuple-valued locals built from aggregates / moved whole (`let (ms, clipped) = if .. { (a, false) } else { (MAX, true) }`): their
+        # components are followed, so that a flag read out of the pair is as well known as a flag assigned directly
+        tup_auto = []
+        def tuple_like(l_):
+            ty_ = (fn.locals[l_].get("ty") or "")
+            return ty_.startswith("(") and ty_ != "()" and l_ > fn.arg_count and l_ not in mut_borrowed
+        changed = True
+        cand = {l_ for l_ in range(len(fn.locals)) if tuple_like(l_) and fn.defs().get(l_)}
+        while changed:
+            changed = False
+            for l_ in sorted(cand):
+                ok_ = True
+                for (_, _, r_) in fn.defs().get(l_, []):
+                    if r_["k"] == "agg" and r_.get("kind") == "tuple":
+                        continue
+                    if r_["k"] == "use" and r_["op"]["k"] in ("move", "copy") and not r_["op"]["p"]["proj"] and r_["op"]["p"]["l"] in cand:
+                        continue
+                    if r_["k"] == "use" and r_["op"]["k"] in ("move", "copy") and [e_["k"] for e_ in r_["op"]["p"]["proj"]] == ["downcast", "field"] \
+                            and r_["op"]["p"]["l"] in enum_auto:
+                        continue        # the payload of a followed enum local (`Some(pair)` taken apart again)
+                    ok_ = False
+                if not ok_:
+                    cand.discard(l_)
+                    changed = True
+        # only where a component is actually read into a tracked scalar
+        reads_comp = set()
+        for b in fn.blocks:
+            for s_ in b["stmts"]:
+                if s_["k"] == "assign" and s_["r"]["k"] == "use" and s_["r"]["op"]["k"] in ("move", "copy"):
+                    pr_ = s_["r"]["op"]["p"]
+                    if len(pr_["proj"]) == 1 and pr_["proj"][0]["k"] == "field" and pr_["l"] in cand:
+                        reads_comp.add(pr_["l"])
+        grow = set(reads_comp)
+        frontier = list(reads_comp)
+        while frontier:
+            l_ = frontier.pop()
+            for (_, _, r_) in fn.defs().get(l_, []):
+                if r_["k"] == "use" and r_["op"]["k"] in ("move", "copy") and not r_["op"]["p"]["proj"]:
+                    src_ = r_["op"]["p"]["l"]
+                    if src_ in cand and src_ not in grow:
+                        grow.add(src_)
+                        frontier.append(src_)
+                elif r_["k"] == "use" and r_["op"]["k"] in ("move", "copy") and r_["op"]["p"]["proj"] and r_["op"]["p"]["l"] in enum_auto:
+                    for (_, _, re_) in fn.defs().get(r_["op"]["p"]["l"], []):
+                        if re_["k"] == "agg" and re_.get("kind") == "adt" and len(re_["ops"]) == 1 and re_["ops"][0]["k"] in ("move", "copy") and not re_["ops"][0]["p"]["proj"]:
+                            src_ = re_["ops"][0]["p"]["l"]
+                            if src_ in cand and src_ not in grow:
+                                grow.add(src_)
+                                frontier.append(src_)
+        tup_auto = sorted(grow) if len(grow) <= 12 else []
+        self.tracked = tuple(tracked) + tuple(auto) + tuple(enum_auto) + tuple(tup_auto)
         self._enum_tracked = set(enum_auto)
+        self._tuple_tracked = set(tup_auto)
         self.tries = tries
         self.try_locals = try_branch_locals(fn)
         self.visited = set()  # (bb, state)
@@ -1218,6 +1285,18 @@ class Explore:
             for tl, v in state:
                 if tl == l:
                     return v
+        if op["k"] in ("copy", "move") and [e_["k"] for e_ in op["p"]["proj"]] == ["downcast", "field"] and op["p"]["l"] in self._enum_tracked:
+            for tl, v in state:
+                if tl == op["p"]["l"]:
+                    if isinstance(v, EV) and v.vidx == op["p"]["proj"][0].get("v") and op["p"]["proj"][1]["i"] == 0 and v.payload is not None:
+                        return v.payload
+                    break
+        if op["k"] in ("copy", "move") and len(op["p"]["proj"]) == 1 and op["p"]["proj"][0]["k"] == "field" and op["p"]["l"] in self._tuple_tracked:
+            for tl, v in state:
+                if tl == op["p"]["l"]:
+                    if isinstance(v, tuple) and op["p"]["proj"][0]["i"] < len(v) and v[op["p"]["proj"][0]["i"]] is not None:
+                        return v[op["p"]["proj"][0]["i"]]
+                    break
         t = self.terms.operand(op)
         return self._eval_term(t)
 
@@ -1302,8 +1381,14 @@ class Explore:
                 continue
             r = s["r"]
             v = None
-            if r["k"] == "agg" and r["kind"] == "adt" and (not r["ops"] or l in self._enum_tracked):
+            if r["k"] == "agg" and r["kind"] == "tuple" and l in self._tuple_tracked:
+                v = tuple(self._value_of(o_, tuple(st.items())) for o_ in r["ops"])
+            elif r["k"] == "agg" and r["kind"] == "adt" and (not r["ops"] or l in self._enum_tracked):
                 v = r["vidx"]
+                if l in self._enum_tracked and len(r["ops"]) == 1:
+                    pv = self._value_of(r["ops"][0], tuple(st.items()))
+                    if isinstance(pv, tuple) and not isinstance(pv, EV):
+                        v = EV(r["vidx"], pv)
             elif r["k"] == "use":
                 v = self._value_of(r["op"], tuple(st.items()))
                 if v is None:
@@ -1332,7 +1417,7 @@ class Explore:
             if not p["proj"]:
                 for tl, v in state:
                     if tl == p["l"] and v is not None:
-                        return v
+                        return v.vidx if isinstance(v, EV) else v
                 if p["l"] in self.try_locals:
                     if self.tries == "ok":
                         return 0
